@@ -92,6 +92,9 @@ type node interface {
 	// delete removes all information from the node.
 	delete()
 
+	// isOwner returns true if the user is the owner of the node.
+	isOwner(u avfs.UserReader) bool
+
 	// fillStatFrom returns a *MemInfo (implementation of fs.FileInfo) from a node named name.
 	fillStatFrom(name string) *MemInfo
 
